@@ -299,6 +299,27 @@ def reuse_family() -> List[Tuple[Any, bool]]:
     return out
 
 
+def reuse_family_quantified() -> List[Tuple[Any, bool]]:
+    """(predicate spec, must_be_rejected): a QUANTIFIED variable used three times in the body — generic / numeric / boolean / string
+    positions in every order — over domains whose elements are numbers, strings, booleans (literal sets, ranges) or unknown (a field);
+    rejected iff two of {explicit uses, element type of a literal domain} are disjoint"""
+    import itertools as it
+    out = []
+    V = ('var', 'v')
+    uses = {'gen': ('bin', '=', V, ('fa', ('var', 'B'), 'w')), 'num': ('bin', '<', V, L(1)), 'bool': ('not', V), 'str': ('bin', '=', V, ('str', 'a')),
+            'gen2': ('bin', 'in', V, ('fa', ('var', 'B'), 'ws')), 'gen3': ('bin', '=', ('call', 'str', V), ('str', '1'))}
+    doms = [(('set', L(1), L(2)), 'num'), (('range', L(0), L(9.5), False, False), 'num'), (('set', ('str', 'a'), ('str', 'b')), 'str'), (('set', L(True), L(False)), 'bool'),
+            (('f', 'ws'), None), (('fa', ('var', 'B'), 'vs'), None)]
+    for dom, dk in doms:
+        for combo in it.permutations(uses, 3):
+            kinds = {k for k in combo if k in ('num', 'bool', 'str')} | ({dk} if dk else set())
+            clash = len(kinds) >= 2
+            a, b, c = (uses[k] for k in combo)
+            out.append((('q', 'forall', 'v', dom, ('bin', 'and', ('bin', 'and', a, b), c)), clash))
+            out.append((('bin', 'or', ('f', 'p'), ('q', 'exists', 'v', dom, ('bin', 'implies', a, ('bin', 'or', b, c)))), clash))
+    return out
+
+
 def numeric_roots() -> List[Any]:
     """non-boolean expressions (arithmetic, unary minus, calls, accesses) with and without alias references"""
     atoms = [X, AX, ('idx', XS, ('fa', ('var', 'A'), 'i')), L(1), ('idx', AXS, L(0))]
